@@ -99,3 +99,7 @@ Section LoopElems.
         end
     end.
 End LoopElems.
+
+(* checked mode (Gen/RadixChk.v): the bound checks Go performs on x[i] and x[lo:hi] *)
+Definition in_range (i : Z) (n : nat) : bool := (0 <=? i)%Z && (i <? Z.of_nat n)%Z.
+Definition slice_ok (lo hi : Z) (n : nat) : bool := (0 <=? lo)%Z && (lo <=? hi)%Z && (hi <=? Z.of_nat n)%Z.
